@@ -271,6 +271,21 @@ func checkC08(c *C08Case) Result {
 		res.Violation = fmt.Sprintf("%s\n  source   %s\n  expected the concatenation of the leaf results %s\n  got %s", msql, val.JSON(nn), val.JSON(flat), mout.Describe())
 		return res
 	}
+	// the same statements once more on ONE document object (nested, flattened, nested): what a query returns
+	// does not depend on the queries that read the document before it
+	live := val.CopyMap(c.Doc)
+	for i, q := range []string{sql, msql, sql} {
+		o := Run(live, q, Opts{})
+		res.Execs++
+		expect := any(want)
+		if i == 1 {
+			expect = any(flat)
+		}
+		if !o.OK() || !val.Equal(any(o.Rows), expect) {
+			res.Violation = fmt.Sprintf("%s\n  run as statement %d of a sequence (nested, mix=>, nested) on one document object\n  source   %s\n  expected %s\n  got      %s", q, i+1, val.JSON(nn), val.JSON(expect), o.Describe())
+			return res
+		}
+	}
 	res.NonTrivial = nonEmptyLeaves >= 2 && (c.Where != nil || c.BackWhere != "") && rejected >= 1
 	if c.Where != nil {
 		res.Labels = append(res.Labels, "where")
